@@ -162,6 +162,9 @@ def api_call(ex, st, args, ins, fn):
         return None
     if short == 'verifSymbolic':
         return True
+    if short == 'verifLazyGoroutines':
+        st.ghost['go_lazy'] = bool(args[0])
+        return None
     if short == 'verifFaultWrites':
         st.ghost['write_fault'] = bool(args[0])
         return None
@@ -433,7 +436,7 @@ IFACE_MODELS['github.com/lianxiangcloud/linkchain/libs/log.Logger'] = iface_noop
 # ---------------------------------------------------------------- sync / atomic
 @model('(*sync.Mutex).Lock', '(*sync.Mutex).Unlock', '(*sync.RWMutex).Lock', '(*sync.RWMutex).Unlock',
        '(*sync.RWMutex).RLock', '(*sync.RWMutex).RUnlock', '(*sync.WaitGroup).Add', '(*sync.WaitGroup).Done',
-       '(*sync.WaitGroup).Wait', '(*sync.Mutex).TryLock', 'runtime.Gosched', 'runtime.KeepAlive',
+       '(*sync.Mutex).TryLock', 'runtime.Gosched', 'runtime.KeepAlive',
        '(*sync.Cond).Broadcast', '(*sync.Cond).Signal')
 def m_sync_noop(ex, st, args, ins, fn):
     return zero_results(ex, ins)
@@ -1162,3 +1165,13 @@ def m_atomicvalue_store(ex, st, args, ins, fn):
 @model('(*sync/atomic.Value).Load')
 def m_atomicvalue_load(ex, st, args, ins, fn):
     return st.ghost.get(('atomicvalue', args[0].cell, args[0].path))
+
+
+@model('(*sync.WaitGroup).Wait')
+def m_waitgroup_wait(ex, st, args, ins, fn):
+    pend = st.ghost.get('go_pending', ())
+    if pend:
+        (callee, gargs, gins) = pend[0]
+        st.ghost['go_pending'] = pend[1:]
+        return Redirect(callee, list(gargs), stay=True, ins=gins)
+    return zero_results(ex, ins)
